@@ -129,7 +129,7 @@ pub fn maperr_calls_reset() {
 pub fn maperr_calls() -> u64 {
     MAPERR_CALLS.with(|c| c.get())
 }
-fn maperr_bump() {
+pub fn maperr_bump() {
     MAPERR_CALLS.with(|c| c.set(c.get() + 1))
 }
 
@@ -228,6 +228,24 @@ macro_rules! toks {
     };
 }
 
+thread_local! {
+    /// C13: every node's concrete combinator is deep-cloned (its own `Clone` impl, recursively through the
+    /// whole unboxed chain) and the CLONE is what gets boxed and used; the original is dropped
+    pub static DEEP_CLONE: std::cell::Cell<bool> = std::cell::Cell::new(false);
+}
+/// `.boxed()` that goes through the combinator's own Clone impl when DEEP_CLONE is set -- on the input kinds
+/// that opt in (`Kind::cb_box`; only `&str`, to keep the amount of monomorphised Clone code down)
+pub trait CloneBoxed<'s, I: Kind<'s>, R: Er<'s, I>>: Parser<'s, I, Val, Ex<R>> + Clone + Sized + 's {
+    fn cb(self) -> BP<'s, I, R> {
+        I::cb_box::<R, Self>(self)
+    }
+}
+impl<'s, I: Kind<'s>, R: Er<'s, I>, T: Parser<'s, I, Val, Ex<R>> + Clone + Sized + 's> CloneBoxed<'s, I, R> for T {}
+
+pub fn toks_of<'s, I: Kind<'s>>(s: &str) -> Vec<I::Tok> {
+    s.chars().map(<I::Tok as Tk>::from_char).collect()
+}
+
 pub trait Kind<'s>: Input<'s, Token = Self::Tok, Span = Self::Spn> + Sized + 's {
     type Tok: Tk;
     type Spn: Sp;
@@ -249,6 +267,10 @@ pub trait Kind<'s>: Input<'s, Token = Self::Tok, Span = Self::Spn> + Sized + 's 
     fn p_not<R: Er<'s, Self>>(p: BP<'s, Self, R>) -> BP<'s, Self, R>;
     fn p_lazy<R: Er<'s, Self>>(p: BP<'s, Self, R>) -> BP<'s, Self, R>;
     fn p_nested<R: Er<'s, Self>>(a: BP<'s, Self, R>, open: char, close: char, others: &[(char, char)], tag: u32) -> BP<'s, Self, R>;
+    /// box a freshly built combinator (see CloneBoxed)
+    fn cb_box<R: Er<'s, Self>, T: Parser<'s, Self, Val, Ex<R>> + Clone + 's>(p: T) -> BP<'s, Self, R> {
+        p.boxed()
+    }
     /// the kind is a BorrowInput (any_ref / select_ref! exist)
     const BORROW: bool = false;
     /// any_ref() / select_ref!() where the kind is a BorrowInput, else the by-value primitives
@@ -578,6 +600,15 @@ fn tok_slice_val<T: Tk>(s: &[T]) -> Val {
 
 impl<'s> Kind<'s> for &'s str {
     value_kind_prims!();
+    fn cb_box<R: Er<'s, Self>, T: Parser<'s, Self, Val, Ex<R>> + Clone + 's>(p: T) -> BP<'s, Self, R> {
+        if DEEP_CLONE.with(|d| d.get()) {
+            let c = p.clone();
+            drop(p);
+            c.boxed()
+        } else {
+            p.boxed()
+        }
+    }
     type Tok = char;
     type Spn = SimpleSpan;
     const HAS_SLICE: bool = true;
@@ -941,8 +972,8 @@ pub struct Bld<'s, I: Kind<'s>, R: Er<'s, I>> {
     /// C11: structurally equal (closed) memoized sub-grammars are built ONCE and the same parser value is cloned
     /// into every place (clones of a Boxed share the memoized parser, hence its memo key)
     pub share_memo: bool,
-    memo_cache: HashMap<G, BP<'s, I, R>>,
-    recs: HashMap<u8, BP<'s, I, R>>,
+    pub memo_cache: HashMap<G, BP<'s, I, R>>,
+    pub recs: HashMap<u8, BP<'s, I, R>>,
 }
 
 
@@ -959,7 +990,7 @@ impl<'s, I: Kind<'s>, R: Er<'s, I>> Bld<'s, I, R> {
                 let (s, e2) = e.span().se();
                 Val::obs(id, s, e2, v)
             })
-            .boxed()
+            .cb()
         } else {
             p
         };
@@ -968,617 +999,20 @@ impl<'s, I: Kind<'s>, R: Er<'s, I>> Bld<'s, I, R> {
                 let st = e.state();
                 Val::St(st.n, st.h, Box::new(v))
             })
-            .boxed()
+            .cb()
         } else {
             p
         }
     }
 
-    fn sink<P>(&mut self, rep: P, sink: &Sink) -> BP<'s, I, R>
-    where
-        P: IterParser<'s, I, Val, Ex<R>> + Parser<'s, I, (), Ex<R>> + 's,
-    {
-        match sink {
-            Sink::Vec => rep.collect::<Vec<Val>>().map(Val::List).boxed(),
-            Sink::Str => unreachable!(),
-            Sink::Count if self.explicit => rep.collect::<Vec<Val>>().map(|v| Val::Num(v.len() as u64)).boxed(),
-            Sink::Unit | Sink::Bare if self.explicit => rep.collect::<Vec<Val>>().map(|_v| Val::Unit).boxed(),
-            Sink::Count => rep.count().map(|n| Val::Num(n as u64)).boxed(),
-            Sink::Unit => rep.collect::<()>().map(|()| Val::Unit).boxed(),
-            Sink::Bare => rep.map(|()| Val::Unit).boxed(),
-            Sink::Exactly(n) => match n {
-                0 => rep.collect_exactly::<[Val; 0]>().map(|a| Val::List(a.into())).boxed(),
-                1 => rep.collect_exactly::<[Val; 1]>().map(|a| Val::List(a.into())).boxed(),
-                2 => rep.collect_exactly::<[Val; 2]>().map(|a| Val::List(a.into())).boxed(),
-                3 => rep.collect_exactly::<[Val; 3]>().map(|a| Val::List(a.into())).boxed(),
-                _ => rep.collect_exactly::<[Val; 4]>().map(|a| Val::List(a.into())).boxed(),
-            },
-            Sink::Enumerate => rep
-                .enumerate()
-                .collect::<Vec<(usize, Val)>>()
-                .map(|v| {
-                    Val::List(v.into_iter().map(|(i, x)| Val::pair(Val::Num(i as u64), x)).collect())
-                })
-                .boxed(),
-            Sink::Foldl(init) => {
-                let init = self.build(init);
-                init.foldl(rep, Val::pair).boxed()
-            }
-            Sink::Foldr(tail) => {
-                let tail = self.build(tail);
-                rep.foldr(tail, Val::pair).boxed()
-            }
-            Sink::FoldlWith(init) => {
-                let init = self.build(init);
-                let os = self.obs_state;
-                init.foldl_with(rep, move |a, b, e| {
-                    let (s, e2) = e.span().se();
-                    let v = Val::pair(Val::Span(s, e2), Val::pair(a, b));
-                    if os {
-                        let st = e.state();
-                        Val::St(st.n, st.h, Box::new(v))
-                    } else {
-                        v
-                    }
-                })
-                .boxed()
-            }
-            Sink::FoldrWith(tail) => {
-                let tail = self.build(tail);
-                let os = self.obs_state;
-                rep.foldr_with(tail, move |a, b, e| {
-                    let (s, e2) = e.span().se();
-                    let v = Val::pair(Val::Span(s, e2), Val::pair(a, b));
-                    if os {
-                        let st = e.state();
-                        Val::St(st.n, st.h, Box::new(v))
-                    } else {
-                        v
-                    }
-                })
-                .boxed()
-            }
-        }
-    }
-
-    fn rep(&mut self, r: &Rep) -> BP<'s, I, R> {
-        let item = self.build(&r.item);
-        let lo = r.lo as usize;
-        let hi = r.hi.map(|h| h as usize);
-        if let Sink::Str = r.sink {
-            // String collection needs `char` items
-            let item = item.map(|v: Val| v.first_tok().unwrap_or('\u{0}'));
-            return match &r.sep {
-                None => {
-                    let mut rep = item.repeated().at_least(lo);
-                    if let Some(h) = hi {
-                        rep = rep.at_most(h)
-                    }
-                    rep.collect::<String>().map(Val::Str).boxed()
-                }
-                Some(sep) => {
-                    let sep = self.build(sep);
-                    let mut rep = item.separated_by(sep).at_least(lo);
-                    if let Some(h) = hi {
-                        rep = rep.at_most(h)
-                    }
-                    if r.leading {
-                        rep = rep.allow_leading()
-                    }
-                    if r.trailing {
-                        rep = rep.allow_trailing()
-                    }
-                    rep.collect::<String>().map(Val::Str).boxed()
-                }
-            };
-        }
-        if r.ctxb != 0 {
-            let mode = r.ctxb;
-            return match mode {
-                1 => {
-                    let rep = item.repeated().configure(move |c, ctx: &Val| c.exactly(ctx_num(ctx)));
-                    self.sink(rep, &r.sink)
-                }
-                2 => {
-                    // static lower bound, upper bound from the context
-                    let rep = item.repeated().at_least(lo).configure(move |c, ctx: &Val| c.at_most(ctx_num(ctx)));
-                    self.sink(rep, &r.sink)
-                }
-                _ => {
-                    let rep = item.repeated().try_configure(move |c, ctx: &Val, span| {
-                        let n = ctx_num(ctx);
-                        if n % 2 == 1 {
-                            Err(R::custom(span, format!("K{}", n)))
-                        } else {
-                            Ok(c.exactly(n))
-                        }
-                    });
-                    self.sink(rep, &r.sink)
-                }
-            };
-        }
-        match &r.sep {
-            None => {
-                if r.cfg {
-                    // the same bounds, split between the static builder and the configuration closure in
-                    // four ways (all equivalent by the documentation of configure)
-                    let mode = (lo + hi.unwrap_or(7)) % 4;
-                    let mut stat = item.repeated();
-                    if mode == 1 || mode == 3 {
-                        stat = stat.at_least(lo);
-                    }
-                    if let (Some(h), true) = (hi, mode == 2 || mode == 3) {
-                        stat = stat.at_most(h);
-                    }
-                    let rep = stat.configure(move |c, _ctx: &Val| {
-                        let c = if mode == 0 || mode == 2 { c.at_least(lo) } else { c };
-                        match hi {
-                            Some(h) if mode == 0 || mode == 1 => c.at_most(h),
-                            _ => c,
-                        }
-                    });
-                    self.sink(rep, &r.sink)
-                } else {
-                    let mut rep = item.repeated().at_least(lo);
-                    if let Some(h) = hi {
-                        rep = rep.at_most(h)
-                    }
-                    self.sink(rep, &r.sink)
-                }
-            }
-            Some(sep) => {
-                let sep = self.build(sep);
-                let mut rep = item.separated_by(sep).at_least(lo);
-                if let Some(h) = hi {
-                    rep = rep.at_most(h)
-                }
-                if r.leading {
-                    rep = rep.allow_leading()
-                }
-                if r.trailing {
-                    rep = rep.allow_trailing()
-                }
-                self.sink(rep, &r.sink)
-            }
-        }
-    }
-
-    fn node(&mut self, g: &G) -> BP<'s, I, R> {
+    pub fn node(&mut self, g: &G) -> BP<'s, I, R> {
         use G::*;
         match g {
-            Just(s) => just::<_, I, Ex<R>>(toks!(s, I))
-                .map(|v: Vec<I::Tok>| Val::Str(v.iter().map(|t| t.to_char()).collect()))
-                .boxed(),
-            Any if self.borrow_prims => I::p_any_ref::<R>(),
-            Any => I::p_any::<R>(),
-            OneOf(s) => I::p_one_of::<R>(s),
-            NoneOf(s) => I::p_none_of::<R>(s),
-            Select(s) if self.borrow_prims => I::p_select_ref::<R>(s, if self.obs_state { SelFlavour::State } else if self.cap_spans { SelFlavour::Span } else { SelFlavour::Plain }),
-            Select(s) => I::p_select::<R>(s, if self.obs_state { SelFlavour::State } else if self.cap_spans { SelFlavour::Span } else { SelFlavour::Plain }),
-            End => end::<I, Ex<R>>().map(|()| Val::Unit).boxed(),
-            Empty => empty::<I, Ex<R>>().map(|()| Val::Unit).boxed(),
-            Custom { take, ok, tag } => I::p_custom::<R>(*take, *ok, *tag),
-            G::Ext { take, ok, tag } if self.explicit => {
-                let g2 = G::Custom { take: *take, ok: *ok, tag: *tag };
-                self.node(&g2)
-            }
-            G::Ext { take, ok, tag } => I::p_ext::<R>(*take, *ok, *tag),
-            Then(a, c) => {
-                let (a, c) = (self.build(a), self.build(c));
-                a.then(c).map(|(a, c)| Val::pair(a, c)).boxed()
-            }
-            IgnoreThen(a, c) if self.explicit => {
-                let (a, c) = (self.build(a), self.build(c));
-                a.then(c).map(|(_, c)| c).boxed()
-            }
-            ThenIgnore(a, c) if self.explicit => {
-                let (a, c) = (self.build(a), self.build(c));
-                a.then(c).map(|(a, _)| a).boxed()
-            }
-            IgnoreThen(a, c) => {
-                let (a, c) = (self.build(a), self.build(c));
-                a.ignore_then(c).boxed()
-            }
-            ThenIgnore(a, c) => {
-                let (a, c) = (self.build(a), self.build(c));
-                a.then_ignore(c).boxed()
-            }
-            Group(v) => {
-                let mut ps: Vec<BP<'s, I, R>> = v.iter().map(|g| self.build(g)).collect();
-                match ps.len() {
-                    2 => {
-                        let (b, a) = (ps.pop().unwrap(), ps.pop().unwrap());
-                        group((a, b)).map(|(a, b)| Val::List(vec![a, b])).boxed()
-                    }
-                    3 => {
-                        let (c, b, a) = (ps.pop().unwrap(), ps.pop().unwrap(), ps.pop().unwrap());
-                        group((a, b, c)).map(|(a, b, c)| Val::List(vec![a, b, c])).boxed()
-                    }
-                    4 => {
-                        let (d, c, b, a) =
-                            (ps.pop().unwrap(), ps.pop().unwrap(), ps.pop().unwrap(), ps.pop().unwrap());
-                        group((a, b, c, d)).map(|(a, b, c, d)| Val::List(vec![a, b, c, d])).boxed()
-                    }
-                    n => panic!("Group arity {}", n),
-                }
-            }
-            GroupArr(v) => {
-                let ps: Vec<BP<'s, I, R>> = v.iter().map(|g| self.build(g)).collect();
-                fn arr<'s, I: Kind<'s>, R: Er<'s, I>, const N: usize>(ps: Vec<BP<'s, I, R>>) -> BP<'s, I, R> {
-                    let a: [BP<'s, I, R>; N] = ps.try_into().ok().unwrap();
-                    group(a).map(|a: [Val; N]| Val::List(a.into())).boxed()
-                }
-                match ps.len() {
-                    1 => arr::<I, R, 1>(ps),
-                    2 => arr::<I, R, 2>(ps),
-                    3 => arr::<I, R, 3>(ps),
-                    4 => arr::<I, R, 4>(ps),
-                    n => panic!("GroupArr arity {}", n),
-                }
-            }
-            Or(a, c) => {
-                let (a, c) = (self.build(a), self.build(c));
-                a.or(c).boxed()
-            }
-            Choice(v) => {
-                let mut ps: Vec<BP<'s, I, R>> = v.iter().map(|g| self.build(g)).collect();
-                ps.reverse();
-                let mut nx = || ps.pop().unwrap();
-                match v.len() {
-                    1 => choice((nx(),)).boxed(),
-                    2 => choice((nx(), nx())).boxed(),
-                    3 => choice((nx(), nx(), nx())).boxed(),
-                    4 => choice((nx(), nx(), nx(), nx())).boxed(),
-                    5 => choice((nx(), nx(), nx(), nx(), nx())).boxed(),
-                    n => panic!("Choice arity {}", n),
-                }
-            }
-            ChoiceVec(v) => {
-                let ps: Vec<BP<'s, I, R>> = v.iter().map(|g| self.build(g)).collect();
-                choice(ps).boxed()
-            }
-            ChoiceArr(v) => {
-                let ps: Vec<BP<'s, I, R>> = v.iter().map(|g| self.build(g)).collect();
-                fn arr<'s, I: Kind<'s>, R: Er<'s, I>, const N: usize>(ps: Vec<BP<'s, I, R>>) -> BP<'s, I, R> {
-                    let a: [BP<'s, I, R>; N] = ps.try_into().ok().unwrap();
-                    choice(a).boxed()
-                }
-                match ps.len() {
-                    1 => arr::<I, R, 1>(ps),
-                    2 => arr::<I, R, 2>(ps),
-                    3 => arr::<I, R, 3>(ps),
-                    4 => arr::<I, R, 4>(ps),
-                    n => panic!("ChoiceArr arity {}", n),
-                }
-            }
-            OrNot(a) => self.build(a).or_not().map(Val::opt).boxed(),
-            Not(a) => {
-                let a = self.build(a);
-                I::p_not::<R>(a)
-            }
-            AndIs(a, c) => {
-                let (a, c) = (self.build(a), self.build(c));
-                a.and_is(c).boxed()
-            }
-            Rewind(a) => self.build(a).rewind().boxed(),
-            Delim { inner, open, close } if self.explicit => {
-                let (o, i, c) = (self.build(open), self.build(inner), self.build(close));
-                o.then(i).then(c).map(|((_, i), _)| i).boxed()
-            }
-            PaddedBy(a, p) if self.explicit => {
-                let (a, p) = (self.build(a), self.build(p));
-                p.clone().then(a).then(p).map(|((_, a), _)| a).boxed()
-            }
-            Delim { inner, open, close } => {
-                let (o, i, c) = (self.build(open), self.build(inner), self.build(close));
-                i.delimited_by(o, c).boxed()
-            }
-            PaddedBy(a, p) => {
-                let (a, p) = (self.build(a), self.build(p));
-                a.padded_by(p).boxed()
-            }
-            Map(a, t) => {
-                let t = *t;
-                self.build(a).map(move |v| Val::mark(t, v)).boxed()
-            }
-            To(a, t) if self.explicit => {
-                let v = Val::mark(*t, Val::Unit);
-                self.build(a).map(move |_| v.clone()).boxed()
-            }
-            Ignored(a) if self.explicit => self.build(a).map(|_| Val::Unit).boxed(),
-            To(a, t) => self.build(a).to(Val::mark(*t, Val::Unit)).boxed(),
-            Ignored(a) => self.build(a).ignored().map(|()| Val::Unit).boxed(),
-            Filter(a, p) => {
-                let p = p.clone();
-                self.build(a).filter(move |v| p.test(v)).boxed()
-            }
-            TryMap(a, p, t) => {
-                let (p, t) = (p.clone(), *t);
-                let cap = self.cap_spans;
-                self.build(a)
-                    .try_map(move |v, span: I::Spn| {
-                        if p.test(&v) {
-                            let m = Val::mark(t, v);
-                            Ok(if cap {
-                                let (s, e) = span.se();
-                                Val::pair(Val::Span(s, e), m)
-                            } else {
-                                m
-                            })
-                        } else {
-                            Err(R::custom(span, format!("T{}", t)))
-                        }
-                    })
-                    .boxed()
-            }
-            TryMapWith(a, p, t) => {
-                let (p, t) = (p.clone(), *t);
-                let cap = self.cap_spans;
-                self.build(a)
-                    .try_map_with(move |v, e| {
-                        if p.test(&v) {
-                            let m = Val::mark(t, v);
-                            Ok(if cap {
-                                let (s, e2) = e.span().se();
-                                Val::pair(Val::Span(s, e2), m)
-                            } else {
-                                m
-                            })
-                        } else {
-                            Err(R::custom(e.span(), format!("T{}", t)))
-                        }
-                    })
-                    .boxed()
-            }
-            ToSlice(a) if self.explicit => {
-                let a = self.build(a);
-                I::slice_node_explicit::<R>(a)
-            }
-            ToSlice(a) => {
-                let a = self.build(a);
-                I::slice_node::<R>(a)
-            }
-            MapSlice(a) => {
-                let a = self.build(a);
-                I::map_slice_node::<R>(a)
-            }
-            ToSpan(a) if self.explicit => self
-                .build(a)
-                .map_with(|_v, e| {
-                    let (s, e2) = e.span().se();
-                    Val::Span(s, e2)
-                })
-                .boxed(),
-            ToSpan(a) => self
-                .build(a)
-                .to_span()
-                .map(|s: I::Spn| {
-                    let (s, e) = s.se();
-                    Val::Span(s, e)
-                })
-                .boxed(),
-            MapSpan(a) => self
-                .build(a)
-                .map_with(|v, e| {
-                    let (s, e2) = e.span().se();
-                    Val::pair(Val::Span(s, e2), v)
-                })
-                .boxed(),
-            Unwrapped(a) => self.build(a).map(Some).unwrapped().boxed(),
-            IntoIter(a, k) => {
-                let it = self.build(a).map(|v: Val| v.into_items()).into_iter();
-                match *k {
-                    0 => it.collect::<Vec<Val>>().map(Val::List).boxed(),
-                    1 => it.count().map(|n| Val::Num(n as u64)).boxed(),
-                    2 => it.collect_exactly::<[Val; 0]>().map(|a| Val::List(a.into())).boxed(),
-                    3 => it.collect_exactly::<[Val; 1]>().map(|a| Val::List(a.into())).boxed(),
-                    4 => it.collect_exactly::<[Val; 2]>().map(|a| Val::List(a.into())).boxed(),
-                    5 => it.collect_exactly::<[Val; 3]>().map(|a| Val::List(a.into())).boxed(),
-                    _ => it.collect_exactly::<[Val; 4]>().map(|a| Val::List(a.into())).boxed(),
-                }
-            }
-            G::Rep(r) => self.rep(r),
-            Validate(a, t, n) => {
-                let (t, n) = (*t, *n);
-                let cap = self.cap_spans;
-                self.build(a)
-                    .validate(move |v, e, em| {
-                        let sp = e.span();
-                        for k in 0..n {
-                            em.emit(R::custom(sp.clone(), format!("V{}.{}", t, k)));
-                        }
-                        if cap {
-                            let (s, e2) = sp.se();
-                            Val::pair(Val::Span(s, e2), v)
-                        } else {
-                            v
-                        }
-                    })
-                    .boxed()
-            }
-            Recover(a, s) => {
-                let a = self.build(a);
-                match s {
-                    Strat::Via(g) => {
-                        let f = self.build(g);
-                        a.recover_with(via_parser(f)).boxed()
-                    }
-                    Strat::SkipUntil { skip, until, tag } => {
-                        let (sk, un, tag) = (self.build(skip), self.build(until), *tag);
-                        a.recover_with(skip_until(sk.ignored(), un.ignored(), move || Val::Fallback(tag)))
-                            .boxed()
-                    }
-                    Strat::SkipRetry { skip, until } => {
-                        let (sk, un) = (self.build(skip), self.build(until));
-                        a.recover_with(skip_then_retry_until(sk.ignored(), un.ignored())).boxed()
-                    }
-                    Strat::Nested { open, close, others, tag } => I::p_nested::<R>(a, *open, *close, others, *tag),
-                }
-            }
-            Labelled(a, l, ctx) => {
-                let p = self.build(a).labelled(l.clone());
-                if *ctx {
-                    p.as_context().boxed()
-                } else {
-                    p.boxed()
-                }
-            }
-            MapErr(a, t, ws) => {
-                let t = *t;
-                if *ws {
-                    self.build(a)
-                        .map_err_with_state(move |e: R, _s, _st| {
-                            maperr_bump();
-                            e.mark(t)
-                        })
-                        .boxed()
-                } else {
-                    self.build(a)
-                        .map_err(move |e: R| {
-                            maperr_bump();
-                            e.mark(t)
-                        })
-                        .boxed()
-                }
-            }
-            Memo(a) if self.share_memo && !self.observed && !a.any_node(&|n| matches!(n, RecRef(_) | CxObs(_) | JustCfg(_) | MapCtx(..))) => {
-                if let Some(p) = self.memo_cache.get(&**a) {
-                    return p.clone();
-                }
-                let p = self.build(a).memoized().boxed();
-                self.memo_cache.insert((**a).clone(), p.clone());
-                p
-            }
-            Memo(a) => self.build(a).memoized().boxed(),
-            Wrapped(a, w) => {
-                let p = self.build(a);
-                match w {
-                    Wrap::Boxed => p.boxed(),
-                    Wrap::BoxedTwice => p.boxed().boxed(),
-                    Wrap::RcW => Rc::new(p).boxed(),
-                    Wrap::BoxW => Box::new(p).boxed(),
-                    Wrap::ArcW => Arc::new(p).boxed(),
-                    Wrap::EitherL => either::Either::<_, BP<'s, I, R>>::Left(p).boxed(),
-                    Wrap::EitherR => either::Either::<BP<'s, I, R>, _>::Right(p).boxed(),
-                    Wrap::Cloned => p.clone().boxed(),
-                }
-            }
-            Rec(id, body) => match self.rec_style {
-                RecStyle::Func => {
-                    let id = *id;
-                    let prev = self.recs.remove(&id);
-                    let p = recursive(|r| {
-                        self.recs.insert(id, r.boxed());
-                        self.build(body)
-                    })
-                    .boxed();
-                    match prev {
-                        Some(x) => {
-                            self.recs.insert(id, x);
-                        }
-                        None => {
-                            self.recs.remove(&id);
-                        }
-                    }
-                    p
-                }
-                RecStyle::DeclareDefine => {
-                    let id = *id;
-                    let mut r: Recursive<Indirect<'s, 's, I, Val, Ex<R>>> = Recursive::declare();
-                    let prev = self.recs.insert(id, r.clone().boxed());
-                    let b = self.build(body);
-                    r.define(b);
-                    match prev {
-                        Some(x) => {
-                            self.recs.insert(id, x);
-                        }
-                        None => {
-                            self.recs.remove(&id);
-                        }
-                    }
-                    r.boxed()
-                }
-                RecStyle::EarlyClone => {
-                    let id = *id;
-                    let mut r: Recursive<Indirect<'s, 's, I, Val, Ex<R>>> = Recursive::declare();
-                    let early = r.clone();
-                    let prev = self.recs.insert(id, early.clone().boxed());
-                    let b = self.build(body);
-                    r.define(b);
-                    drop(r);
-                    match prev {
-                        Some(x) => {
-                            self.recs.insert(id, x);
-                        }
-                        None => {
-                            self.recs.remove(&id);
-                        }
-                    }
-                    early.boxed()
-                }
-            },
-            RecRef(id) => self.recs.get(id).expect("unbound RecRef").clone(),
-            Lazy(a) => {
-                let a = self.build(a);
-                I::p_lazy::<R>(a)
-            }
-            NestedIn(a) => {
-                let a = self.build(a);
-                I::p_nested_in::<R>(a)
-            }
-            StPush(a, t) => {
-                let t = *t;
-                // validate() runs its closure in parse and in check mode alike (map_with closures
-                // may legitimately be skipped when the value is not needed)
-                self.build(a)
-                    .validate(move |v, e, _em| {
-                        e.state().log.push(t);
-                        v
-                    })
-                    .boxed()
-            }
-            StObs(a) => self
-                .build(a)
-                .map_with(|v, e| {
-                    let st = e.state();
-                    Val::St(st.n, st.h, Box::new(v))
-                })
-                .boxed(),
-            WithState(a, seed) => self.build(a).with_state(Insp::seeded(*seed)).boxed(),
-            WithCtx(a, s) => self.build(a).with_ctx(Val::Str(s.clone())).boxed(),
-            ThenWithCtx(a, c) => {
-                let (a, c) = (self.build(a), self.build(c));
-                a.then_with_ctx(c).map(|(a, c)| Val::pair(a, c)).boxed()
-            }
-            IgnoreWithCtx(a, c) => {
-                let (a, c) = (self.build(a), self.build(c));
-                a.ignore_with_ctx(c).boxed()
-            }
-            MapCtx(a, k) => {
-                let k = *k;
-                let a = self.build(a);
-                map_ctx::<_, Val, I, Ex<R>, Ex<R>, _>(move |c: &Val| ctx_op(k, c), a).boxed()
-            }
-            CxObs(a) => self
-                .build(a)
-                .map_with(|v, e| Val::Cx(Box::new(e.ctx().clone()), Box::new(v)))
-                .boxed(),
-            JustCfg(s) => just::<_, I, Ex<R>>(toks!(s, I))
-                .configure(|cfg, ctx: &Val| {
-                    let mut t = Vec::new();
-                    ctx.tokens(&mut t);
-                    if t.is_empty() {
-                        cfg
-                    } else {
-                        cfg.seq(t.into_iter().map(I::Tok::from_char).collect::<Vec<_>>())
-                    }
-                })
-                .map(|v: Vec<I::Tok>| Val::Str(v.iter().map(|t| t.to_char()).collect()))
-                .boxed(),
-            Track(a, t) => {
-                let t = *t;
-                self.build(a).map(move |v| Val::pair(Val::Tr(Tracked::new(t)), v)).boxed()
-            }
+            Just(_) | Any | OneOf(_) | NoneOf(_) | Select(_) | End | Empty | Custom { .. } | G::Ext { .. } | Then(..) | IgnoreThen(..) | ThenIgnore(..) | Group(_) | GroupArr(_) | Or(..) | Choice(_) | ChoiceVec(_) | ChoiceArr(_) | OrNot(_) | Not(_) | AndIs(..) | Rewind(_) | Delim { .. } | PaddedBy(..) => crate::build_a::node_a(self, g),
+            Map(..) | To(..) | Ignored(_) | Filter(..) | TryMap(..) | TryMapWith(..) | ToSlice(_) | MapSlice(_) | ToSpan(_) | MapSpan(_) | Unwrapped(_) | IntoIter(..) => crate::build_b::node_b(self, g),
+            G::Rep(r) => crate::build_c::rep_node(self, r),
+            Validate(..) | Recover(..) | Labelled(..) | MapErr(..) | Memo(_) | Wrapped(..) | Rec(..) | RecRef(_) | Lazy(_) | NestedIn(_) => crate::build_d::node_d(self, g),
+            StPush(..) | StObs(_) | WithState(..) | WithCtx(..) | ThenWithCtx(..) | IgnoreWithCtx(..) | MapCtx(..) | CxObs(_) | JustCfg(_) | Track(..) => crate::build_e::node_e(self, g),
         }
     }
 }
